@@ -7,19 +7,19 @@ package criteria_concealment
 
 // the scaling of the concealed criterion's range: as requested (1 when absent); only 0 is rejected - a negative one mirrors the range
 //@ func parseProps
-//@   property C18 C20 C09 C01
+//@   property C18 C20 C09 C01 C07
 //@   panics_iff [scaling_zero] decoded_has(*props, "NewCriterionScaling") && decoded_real(*props, "NewCriterionScaling") == 0.0
 //@   ensures [scaling_nonzero] result.NewCriterionScaling != 0.0
 //@   ensures [as_requested] fresh(result) && result.NewCriterionScaling == (decoded_has(*props, "NewCriterionScaling") ? decoded_real(*props, "NewCriterionScaling") : 1.0)
 //@             && result.RandomSeed == (decoded_has(*props, "RandomSeed") ? decoded_int(*props, "RandomSeed") : 0)
 
 //@ func getCriterionValueRange
-//@   property C18 C07 C09 C01
+//@   property C18 C07 C09 C01 C20
 //@   ensures [scaled_reference_range] fresh(result) && (referenceCriterion.ValuesRange != nil ==>
 //@             result.Min == utils.scaledMin(*referenceCriterion.ValuesRange, scaling) && result.Max == utils.scaledMax(*referenceCriterion.ValuesRange, scaling))
 
 //@ func (*CriteriaConcealment).generateNewCriterionBase
-//@   property C18 C07 C09 C01
+//@   property C18 C07 C09 C01 C20
 //@   requires model.distinctCriteria(originalParams.Criteria) && len(originalParams.Criteria) > 0
 //@   requires model.validParams(*listener, originalParams.MethodParameters) && model.coversAll(*listener, originalParams.MethodParameters, originalParams.Criteria)
 //@   ensures [gain] result.newCriterion != nil && result.newCriterion.Type == model.Gain && result.newCriterion.ValuesRange != nil
@@ -29,21 +29,21 @@ package criteria_concealment
 
 // the value generator closure: bounded next value of the in-range generator, recorded in the report under the alternative's id
 //@ func assignNewCriterionToAlternatives$1
-//@   property C18 C07 C09 C01
+//@   property C18 C07 C09 C01 C20
 //@   assigns alternativesValues
 //@   ensures [bounded_draw] result == criteria_bounding.boundedIn(*boundingInRange, draw(generator, old(calls(generator))))
 //@   ensures [reported] a.Id in alternativesValues && alternativesValues[a.Id] == result
 
 //@ func assignNewCriterionToAlternatives
-//@   property C18 C07 C09 C01
+//@   property C18 C07 C09 C01 C20
 //@   requires newCriterion.ValuesRange != nil
 //@   ensures [shape] fresh(result0) && fresh(*result0) && len(*result0) == len(resParams.ConsideredAlternatives) + len(resParams.NotConsideredAlternatives)
 //@   ensures [extended_members] forall k int :: 0 <= k && k < len(*result0) ==> exists j int :: 0 <= j && j < len(*result0)
 //@             && model.extendedBy((*result0)[k], model.altAt(resParams.ConsideredAlternatives, resParams.NotConsideredAlternatives, j), newCriterion.Id)
-//@   ensures [C04 C18 values_are_drawn_in_id_order_not_listing_order] forall i int, j int :: 0 <= i && i < j && j < len(*result0) ==> !((*result0)[j].Id < (*result0)[i].Id)
+//@   ensures [values_are_drawn_in_id_order_not_listing_order] forall i int, j int :: 0 <= i && i < j && j < len(*result0) ==> !((*result0)[j].Id < (*result0)[i].Id)
 
 //@ func generateCriterionValuesForAlternatives
-//@   property C18 C07 C09 C01
+//@   property C18 C07 C09 C01 C20
 //@   requires newCriterion.ValuesRange != nil
 //@   requires forall i int, j int :: 0 <= i && i < j && j < len(resParams.ConsideredAlternatives) ==> resParams.ConsideredAlternatives[i].Id != resParams.ConsideredAlternatives[j].Id
 //@   requires forall i int, j int :: 0 <= i && i < j && j < len(resParams.NotConsideredAlternatives) ==> resParams.NotConsideredAlternatives[i].Id != resParams.NotConsideredAlternatives[j].Id
@@ -53,7 +53,7 @@ package criteria_concealment
 //@   ensures [not_considered] forall i int :: 0 <= i && i < len(resParams.NotConsideredAlternatives) ==> model.extendedBy((*result.notConsideredAlternatives)[i], resParams.NotConsideredAlternatives[i], newCriterion.Id)
 
 //@ func (*CriteriaConcealment).addCriterion
-//@   property C18 C07 C01 C09
+//@   property C18 C07 C01 C09 C20
 //@   requires model.coherent(*listener, *resParams) && model.coherent(*listener, *originalParams) && len(originalParams.Criteria) > 0
 //@   requires forall i int, j int :: 0 <= i && i < j && j < len(resParams.ConsideredAlternatives) ==> resParams.ConsideredAlternatives[i].Id != resParams.ConsideredAlternatives[j].Id
 //@   requires forall i int, j int :: 0 <= i && i < j && j < len(resParams.NotConsideredAlternatives) ==> resParams.NotConsideredAlternatives[i].Id != resParams.NotConsideredAlternatives[j].Id
@@ -71,7 +71,7 @@ package criteria_concealment
 //@ pred concealmentActs(b model.Bias, out *model.DecisionMakingParams, in *model.DecisionMakingParams) = len(out.Criteria) == len(in.Criteria) + 1 && forall k int :: 0 <= k && k < len(in.Criteria) ==> out.Criteria[k] == in.Criteria[k]
 //@ func (*CriteriaConcealment).Apply
 //@   refines model.Bias.Apply with actsOn=concealmentActs
-//@   property C18 C07 C01 C09
+//@   property C18 C07 C01 C09 C20
 //@   requires model.coherent(*listener, *current) && model.coherent(*listener, *original) && len(original.Criteria) > 0
 //@   requires forall i int, j int :: 0 <= i && i < j && j < len(current.ConsideredAlternatives) ==> current.ConsideredAlternatives[i].Id != current.ConsideredAlternatives[j].Id
 //@   requires forall i int, j int :: 0 <= i && i < j && j < len(current.NotConsideredAlternatives) ==> current.NotConsideredAlternatives[i].Id != current.NotConsideredAlternatives[j].Id
@@ -97,12 +97,15 @@ package criteria_concealment
 //@ wire CriteriaConcealmentParams
 //@   property C01 C18 C20
 //@   json RandomSeed=randomSeed NewCriterionScaling=newCriterionScaling
+//@   gotypes RandomSeed=int64 NewCriterionScaling=float64
 //@ wire CriteriaConcealmentResult
 //@   property C01 C18 C20
 //@   json AddedCriteria=addedCriteria
+//@   gotypes AddedCriteria=[]AddedCriterion
 //@ wire AddedCriterion
 //@   property C01 C07 C18 C20
 //@   json Id=id Type=type ValuesRange=valuesRange AlternativesValues=alternativesValues MethodParameters=methodParameters
+//@   gotypes Id=string Type=model.CriterionType ValuesRange=utils.ValueRange AlternativesValues=model.Weights MethodParameters=model.MethodParameters
 
 // ---- registered names (what a request must say to select this object; what error messages list)
 //@ func (*CriteriaConcealment).Identifier
@@ -111,6 +114,6 @@ package criteria_concealment
 //@   ensures [name] result == "criteriaConcealment"
 
 //@ func newConcealedCriterionName
-//@   property C18 C07 C01 C09
+//@   property C18 C07 C01 C09 C20
 //@   ensures [base_name_then_count] result == (model.cntp(*criteria, "__concealedCriterion__", len(*criteria)) == 0 ? "__concealedCriterion__"
 //@             : "__concealedCriterion__" + itoa(model.cntp(*criteria, "__concealedCriterion__", len(*criteria))))
